@@ -12,6 +12,9 @@ func c3CC() *c3E { return c3Call("ws.get_connection_count") }
 func c3Atoms() []*c3E {
 	return []*c3E{
 		c3Int(0), c3Int(1), c3Int(2), c3Float("1.5"), c3Str("a"), c3Bool(true), c3Bool(false), c3Null(),
+		// a float with the same numeric value as one of the integers: folding may not decide int-against-float
+		// comparisons by other rules than the runtime's
+		c3Float("2.0"),
 		c3Var("x"), c3Var("p"), c3CC(),
 	}
 }
